@@ -11,6 +11,7 @@ Requests (one per line):
   hexpitch s3 newPitch ARGS [i,j,k]             cartpitch xw yw ARGS [i,j,k]
   getlabel [i,j(,k)]     labelidx L<label>        (Grid.getLabel / locatorLabelToIndices; labels over digits and '-')
   global LOC LOC ...     complete LOC (LOC | _)     completechain LOC LOC ...    addingvalid LOC LOC
+  globalTN T|F LOCT ...  (getGlobalCoordinates(nativeCoords))
   globalT LOCT LOCT ...  LOCT = LOC | T tau cos sin ARGS [i,j,k]   (index locator of a ThetaRZGrid)
   LOC = I ARGS [i,j,k] | ID [i,j,k] | C [x,y,z] | CG ARGS [x,y,z]
 unitSteps = [row,row,row], row = [a,b,c] | scalar;  bounds = [_|[..],_|[..],_|[..]];
@@ -162,6 +163,10 @@ def answer : List String → String
       match parseNat? d, parseBool? r, parseBool? t, parseInt? i, parseInt? j with
       | some d, some r, some t, some i, some j => showOpt (showList showPair) (cartEquivalents d r t i j)
       | _, _, _, _, _ => "bad-op"
+  | ["cartequiv3", d, r, t, i, j, k] =>
+      match parseNat? d, parseBool? r, parseBool? t, parseInt? i, parseInt? j, parseInt? k with
+      | some d, some r, some t, some i, some j, some k => showOpt (showList showPair) (cartEquivalentsK d r t (i, j, k))
+      | _, _, _, _, _, _ => "bad-op"
   | ["cartindomain", q, i, j] => match parseBool? q, parseInt? i, parseInt? j with
       | some q, some i, some j => showBool (cartInDomain q i j)
       | _, _, _ => "bad-op"
@@ -232,6 +237,9 @@ def answer : List String → String
   | "global" :: rest => match parseLocs? rest with
       | some locs => if locs.isEmpty then "bad-op" else showOpt showRats (globalCoords locs)
       | none => "bad-op"
+  | "globalTN" :: nat :: rest => match parseBool? nat, parseLocsT? rest with
+      | some nat, some locs => if locs.isEmpty then "bad-op" else showOpt showRats (globalCoordsTN nat locs)
+      | _, _ => "bad-op"
   | "globalT" :: rest => match parseLocsT? rest with
       | some locs => if locs.isEmpty then "bad-op" else showOpt showRats (globalCoordsT locs)
       | none => "bad-op"
